@@ -105,6 +105,7 @@ impl Parent {
     pub fn delete_by_id(&mut self, id: usize) -> (r: Option<ItemRef>)
         ensures final(self).order@ == old(self).order@, final(self).ident == old(self).ident, final(self).registered@ == old(self).registered@,
                 r is None ==> final(self).children@ == old(self).children@,
+                r is Some <==> old(self).children@.contains(id),   // proved of XmlElement's and XmlDocument's below
                 r is Some ==> r->Some_0.ident == id && final(self).children@ == without_id(old(self).children@, id),
     { unimplemented!() }
 
@@ -115,6 +116,7 @@ impl Parent {
         ensures final(self).order@ == old(self).order@, final(self).ident == old(self).ident, final(self).registered@ == old(self).registered@,
                 final(self).last_desc@ == old(self).last_desc@,
                 r is Err ==> final(self).children@ == old(self).children@,
+                r is Err ==> (r->Err_0 is InvalidHierarchy || r->Err_0 is InvalidType),   // proved of the three implementations below
                 r is Ok <==> old(self).accepts(value),
                 r is Ok ==> r->Ok_0 == value && final(self).children@.contains(value.ident),
                 r is Ok ==> final(self).children@ == (match id {
@@ -228,6 +230,7 @@ pub mod prim {
     pub fn attribute_value_try_from(value: ItemRef) -> (r: error::Result<XmlAttributeValue>)
         ensures r is Ok ==> r->Ok_0.ident == value.ident,
                 r is Ok <==> (value.item is Text || value.item is CharReference || value.item is Unexpanded),
+                r is Err ==> r->Err_0 is InvalidType,
     { unimplemented!() }
     pub open spec fn value_ids(v: Seq<XmlAttributeValue>) -> Seq<usize> { v.map_values(|x: XmlAttributeValue| x.ident) }
 
@@ -462,6 +465,8 @@ pub mod prim {
         //@@ document_last_child_or_self_id
 
         //@@ document_insert_by_id
+
+        //@@ document_delete_by_id
     }
 
     impl XmlAttribute {
@@ -525,10 +530,13 @@ def build():
                                 ('C14:whole_subtree_is_numbered_after_the_last_descendant', 'r is Ok && old(self).order@.contains(old(self).last_desc@) && !value.subtree@.contains(old(self).last_desc@) && old(self).order@.no_duplicates() && value.subtree@.no_duplicates() ==> final(self).order@ == placed_after(old(self).order@, old(self).last_desc@, value.subtree@)')])
     fns['delete'] = Fn(FI, TR, 'delete', props=P, sig_rules=SR, rules=[R_CLEAR], label='HasChildren::delete (trait default)',
                        ensures=[('C13:unknown_child_changes_nothing', f'r is None ==> {UNCHANGED}'),
+                                ('C13:a_child_is_removed_and_answered_exactly_when_it_is_listed', 'r is Some <==> old(self).children@.contains(id)'),
+                                ('C13:the_answer_is_the_child', 'r is Some ==> r->Some_0.ident == id'),
                                 ('C13+C14:removed_child_loses_its_key', 'r is Some ==> final(self).children@ == without_id(old(self).children@, id) && final(self).order@ == without_id(old(self).order@, id)')])
     fns['insert_before'] = Fn(FI, TR, 'insert_before', props=P, sig_rules=SR, rules=[R_BEFORE, R_PLB, R_REG], label='HasChildren::insert_before (trait default)',
                               ensures=[('C13+C14:refused_call_changes_nothing', f'r is Err ==> {UNCHANGED}'),
                                        ('C13:unknown_reference_is_refused', '!old(self).children@.contains(id) ==> r is Err'),
+                                       ('C13:out_of_index_exactly_when_the_reference_is_not_a_child_or_is_the_node_itself', '(!old(self).children@.contains(id) || value.ident == id) <==> (r is Err && r->Err_0 is OufOfIndex)'),
                                        ('C13:accepted_child_is_in_the_list_and_numbered', 'r is Ok ==> final(self).children@.contains(value.ident)'),
                                        ('C13:succeeds_exactly_when_reference_and_node_are_acceptable', 'r is Ok <==> (old(self).children@.contains(id) && value.ident != id && old(self).accepts(value))'),
                                        ('C13:the_child_lands_directly_before_the_reference', 'r is Ok ==> final(self).children@ == Parent::inserted_before(old(self).children@, value.ident, id)'),
@@ -557,7 +565,8 @@ def build():
         fns[key] = Fn(FI, owner, 'insert_by_id', props=P, sig_rules=SRP, rules=R_PRIM, label=label,
                       requires=[('reference_child_exists_and_is_not_the_value', f'id is Some ==> id->Some_0 != value.ident && {idsf}(old(self).{lst}@).contains(id->Some_0)')],
                       ensures=[('C13+C12:refused_call_changes_nothing', f'r is Err ==> final(self).{lst}@ == old(self).{lst}@ && final(self).parent_of@ == old(self).parent_of@'),
-                               ('C13+C12:accepted_child_is_listed_once_under_this_parent', f'r is Ok ==> r->Ok_0 == value && {idsf}(final(self).{lst}@).contains(value.ident) && final(self).parent_of@[value.ident] == Some(old(self).ident)')],
+                               ('C13+C12:accepted_child_is_listed_once_under_this_parent', f'r is Ok ==> r->Ok_0 == value && {idsf}(final(self).{lst}@).contains(value.ident) && final(self).parent_of@[value.ident] == Some(old(self).ident)'),
+                               ('C13:a_refusal_names_the_hierarchy_or_the_type', 'r is Err ==> (r->Err_0 is InvalidHierarchy || r->Err_0 is InvalidType)')],
                       inject=[(r'let index = self\.child_index\(id\)\.unwrap\(\);', f'proof {{ {lem}(old(self).{lst}@, value.ident, Some(id)); }}', 'before'),
                               (rf'self\.{lst}\.insert\(index, ', f'proof {{ assert({idsf}(self.{lst}@)[index as int] == value.ident); }}'),
                               (rf'self\.{lst}\.push\(', f'proof {{ assert({idsf}(self.{lst}@)[self.{lst}@.len() - 1] == value.ident); }}')])
@@ -582,6 +591,7 @@ def build():
                   ('the_handle_of_an_element_item_is_its_id', 'value.item is Element ==> value.item->Element_0 == value.ident')],
         ensures=[('C13+C12:refused_call_changes_nothing', 'r is Err ==> final(self).children@ == old(self).children@ && final(self).parent_of@ == old(self).parent_of@'),
                  ('C13+C12:accepted_child_is_listed_once_under_this_parent', 'r is Ok ==> r->Ok_0 == value && ids(final(self).children@).contains(value.ident) && final(self).parent_of@[value.ident] == Some(old(self).ident)'),
+                 ('C13:a_refusal_names_the_hierarchy_or_the_type', 'r is Err ==> (r->Err_0 is InvalidHierarchy || r->Err_0 is InvalidType)'),
                  ('C12:accepted_child_is_listed_exactly_once', 'r is Ok ==> (forall|i: int, j: int| 0 <= i < final(self).children@.len() && 0 <= j < final(self).children@.len()'
                   ' && #[trigger] ids(final(self).children@)[i] == value.ident && #[trigger] ids(final(self).children@)[j] == value.ident ==> i == j)'),
                  ('C12:at_most_one_document_element_and_one_document_type',
@@ -632,14 +642,16 @@ def build():
                   '({ let l = old(self).attributes@; let i = first_named(l, name@); i >= 0 ==> r == Some(l[i]) && final(self).attributes@ == l.filter(|x: ItemRef| x.ident != l[i].ident)'
                   ' && final(self).parent_of@ == old(self).parent_of@.insert(l[i].ident, None) && (distinct_items(l) ==> final(self).attributes@ =~= l.remove(i)) })'),
                  ('C12:the_children_stay', 'final(self).children@ == old(self).children@ && final(self).ident == old(self).ident')])
-    fns['element_delete_by_id'] = Fn(
-        FI, 'impl HasChildren for XmlElement', 'delete_by_id', props=['C12'], safety_props=['C12'], sig_rules=SRP, label='XmlElement::delete_by_id',
+    for (key, owner, label) in (('element_delete_by_id', 'impl HasChildren for XmlElement', 'XmlElement::delete_by_id'), ('document_delete_by_id', 'impl HasChildren for XmlDocument', 'XmlDocument::delete_by_id')):
+      fns[key] = Fn(
+        FI, owner, 'delete_by_id', props=['C12', 'C13'], safety_props=['C12'], sig_rules=SRP, label=label,
         rules=[Rule('R11', r'self\.children\.borrow_mut\(\)\.', 'self.children.', 'RefCell borrow dropped (A4)'),
                Rule('R43', r'value\.set_parent_id\(None\);', 'self.world_set_parent_id(&value, None);', 'the parent link lives in the shared world: made explicit on the receiver')],
         ensures=[('C12:unknown_child_changes_nothing', '!ids(old(self).children@).contains(id) ==> r is None && final(self).children@ == old(self).children@ && final(self).parent_of@ == old(self).parent_of@'),
                  ('C12:removed_child_has_no_parent_and_is_not_listed',
                   'ids(old(self).children@).contains(id) ==> r is Some && r->Some_0.ident == id && final(self).parent_of@ == old(self).parent_of@.insert(id, None)'
-                  ' && (exists|k: int| 0 <= k < old(self).children@.len() && old(self).children@[k].ident == id && final(self).children@ == old(self).children@.remove(k))')])
+                  ' && (exists|k: int| 0 <= k < old(self).children@.len() && old(self).children@[k].ident == id && final(self).children@ == old(self).children@.remove(k))'),
+                 ('C13:a_child_is_answered_exactly_when_it_is_listed', 'r is Some <==> ids(old(self).children@).contains(id)')])
     # C12 clauses on insert_by_id: the accepted child is listed exactly once
     for key, lst, idsf in (('element_insert_by_id', 'children', 'ids'), ('attribute_insert_by_id', 'values', 'value_ids')):
         fns[key].ensures.append(('C12:accepted_child_is_listed_exactly_once',
